@@ -37,6 +37,8 @@ type Solver struct {
 	log     io.Writer
 	nq      int // queries since (re)start
 	oneShot bool
+	defLog  []int
+	marks   []int
 	stack   []*Term // path-condition conjuncts currently asserted, one push level each
 }
 
@@ -93,7 +95,8 @@ func (s *Solver) start() error {
 	s.defined = map[int]bool{}
 	s.nq = 0
 	s.stack = nil
-	s.send("(set-option :global-declarations true)\n")
+	s.defLog = nil
+	s.marks = nil
 	if strings.HasPrefix(s.kind, "cvc5") {
 		s.send("(set-logic ALL)\n")
 	}
@@ -182,6 +185,7 @@ func (s *Solver) define(t *Term) {
 		}
 		s.emitDef(f.t)
 		s.defined[f.t.ID] = true
+		s.defLog = append(s.defLog, f.t.ID)
 		st = st[:len(st)-1]
 	}
 }
@@ -215,6 +219,24 @@ func (s *Solver) emitDef(t *Term) {
 	}
 	sb.WriteString(")\n")
 	s.send(sb.String())
+}
+
+func (s *Solver) push() {
+	s.send("(push 1)\n")
+	s.marks = append(s.marks, len(s.defLog))
+}
+
+func (s *Solver) pop(n int) {
+	if n <= 0 {
+		return
+	}
+	s.send("(pop " + strconv.Itoa(n) + ")\n")
+	m := s.marks[len(s.marks)-n]
+	for _, id := range s.defLog[m:] {
+		delete(s.defined, id)
+	}
+	s.defLog = s.defLog[:m]
+	s.marks = s.marks[:len(s.marks)-n]
 }
 
 func (s *Solver) readLine() (string, error) {
@@ -260,7 +282,7 @@ func (s *Solver) Check(asserts []*Term, wantModel bool, extra []*Term) (SatResul
 	}
 	t0 := time.Now()
 	defer func() { s.Secs += time.Since(t0).Seconds(); s.Queries++ }()
-	if s.nq > 20000 {
+	if s.nq > 50000 {
 		s.restart()
 	}
 	s.nq++
@@ -278,22 +300,22 @@ func (s *Solver) Check(asserts []*Term, wantModel bool, extra []*Term) (SatResul
 		common++
 	}
 	if n := len(s.stack) - common; n > 0 {
-		s.send("(pop " + strconv.Itoa(n) + ")\n")
+		s.pop(n)
 		s.stack = s.stack[:common]
 	}
 	for _, a := range pc[common:] {
+		s.push()
 		s.define(a)
-		s.send("(push 1)\n")
 		if !a.IsTrue() {
 			s.send("(assert " + s.ref(a) + ")\n")
 		}
 		s.stack = append(s.stack, a)
 	}
+	s.push()
 	s.define(q)
 	for _, a := range extra {
 		s.define(a)
 	}
-	s.send("(push 1)\n")
 	if !q.IsTrue() {
 		s.send("(assert " + s.ref(q) + ")\n")
 	}
@@ -353,7 +375,7 @@ func (s *Solver) Check(asserts []*Term, wantModel bool, extra []*Term) (SatResul
 			parseModel(txt, model)
 		}
 	}
-	s.send("(pop 1)\n")
+	s.pop(1)
 	return res, model
 }
 
